@@ -19,7 +19,7 @@ from vf import pyvc, lemmas, rtc  # noqa: E402
 
 def norm_oid(oid):
     """obligation id with line numbers removed (lines shift under harmless edits)"""
-    return re.sub(r"@\d+", "@L", oid)
+    return re.sub(r"@\d+", "@L", oid)  # ("@end" is kept as is)
 
 
 class ObResult:
